@@ -44,6 +44,22 @@ Theorem C09_no_room_no_message : forall M attr v4a v4w fams,
   fst (split_bytes M attr v4a v4w fams) = [] /\ snd (split_bytes M attr v4a v4w fams) <> Raised.
 Proof. exact bytes_no_room. Qed.
 
+(* the attribute block.  messages() packs it once, with or without the default attributes
+   (split_bytes_top mirrors that choice: what it returns is split_bytes on the chosen block, so the
+   four theorems above apply to it), and whenever the collection announces anything - an IPv4 prefix
+   or an MP route - the block is the requested attributes with the defaults: together with
+   attrs_where_needed of C09_complete, every message that announces carries the requested attributes *)
+Theorem C09_top_is_split : forall simple M attr_full attr_min v4a v4w fams,
+  fst (split_bytes_top simple M attr_full attr_min v4a v4w fams) =
+  split_bytes M (if snd (split_bytes_top simple M attr_full attr_min v4a v4w fams)
+                 then attr_full else attr_min) v4a v4w fams.
+Proof. exact bytes_top_is_split. Qed.
+
+Theorem C09_announces_carry_requested_attributes : forall simple M attr_full attr_min v4a v4w fams,
+  v4a <> [] \/ requested_mp fams <> [] ->
+  snd (split_bytes_top simple M attr_full attr_min v4a v4w fams) = true.
+Proof. intros. apply include_defaults_when_announcing. assumption. Qed.
+
 (* ---- the pinned code (defect D12), kept as machine-checked witnesses ---- *)
 
 (* C09_fits is false of the pinned code: msg_size 4096, 4069 bytes of attributes (room 4), IPv4
@@ -114,6 +130,8 @@ Print Assumptions C09_fits.
 Print Assumptions C09_no_exception.
 Print Assumptions C09_complete.
 Print Assumptions C09_no_room_no_message.
+Print Assumptions C09_top_is_split.
+Print Assumptions C09_announces_carry_requested_attributes.
 Print Assumptions C09_fits_refuted_pinned.
 Print Assumptions C09_fits_refuted_pinned_mp.
 Print Assumptions C09_no_room_refuted_pinned.
